@@ -1153,47 +1153,34 @@ pub fn check_trees(w: &mut Wallet, cx: &Ctx, m: &Model) -> Result<Vec<String>, S
         let ids: BTreeSet<u32> = db::query_rows(w.db.conn(), &format!("SELECT checkpoint_id FROM {}_tree_checkpoints", p.prefix())).iter().map(|r| r.parse::<u32>().unwrap()).collect();
         cp_sets.push(ids);
     }
-    // (1) same checkpoint heights in all pools, from a floor upwards. Below it the sets may differ for
-    // two documented reasons: a pool that holds its full budget of prunable checkpoints (PRUNING_DEPTH
-    // = 100, the retained grid is exempt) has dropped older ones while an idle pool is pruned only
-    // when it next receives a commitment; and a rewind below every checkpoint a pool retains resets
-    // that pool (TreeTruncation::ResetToSubtreeRoots), which then lacks the old checkpoints the other
-    // pools keep. The floor is the pruning floor, and after a rewind at least the newest "oldest
-    // prunable checkpoint" of any pool. Grid (retained) checkpoints are compared everywhere by clause
-    // (3); what each single scan adds is compared per pool in `apply`.
-    let mut floor = pruning_floor(w, &cp_sets);
-    if floor > 0 {
-        outcomes.push("checkpoints:pool-at-capacity".into());
-    }
-    if m.rewinds > 0 {
-        // After a rewind the "at capacity" status is gone (the truncation removed newer checkpoints)
-        // but what the pool pruned while it was at capacity stays pruned, and a reset pool lacks
-        // everything below its re-creation: compare from the newest "oldest prunable checkpoint" of
-        // any pool (its oldest checkpoint when it holds grid checkpoints only).
-        for (i, p) in POOLS.iter().enumerate() {
-            let retained: BTreeSet<u32> = db::query_rows(w.db.conn(), &format!("SELECT checkpoint_id FROM {}_tree_retained_checkpoints", p.prefix())).iter().map(|r| r.parse::<u32>().unwrap()).collect();
-            let lo = cp_sets[i].iter().copied().find(|h| !retained.contains(h)).or_else(|| cp_sets[i].iter().next().copied());
-            if let Some(lo) = lo {
-                floor = floor.max(lo);
-            }
+    // (1) same checkpoint heights in all pools. What each single scan creates is compared per pool in
+    // `apply` (every height at which a scan creates a checkpoint in one pool is a checkpoint of every
+    // pool afterwards). As a statement about a STATE it holds from the pruning floor upwards as long
+    // as nothing was truncated: a pool holding its full budget of prunable checkpoints (PRUNING_DEPTH
+    // = 100, the retained grid is exempt) has dropped older ones, an idle pool is pruned only when it
+    // next receives a commitment, and without a truncation a pool that is not at capacity never
+    // pruned anything. After a rewind the sets legitimately differ in ways a state alone cannot
+    // bound (the truncation removes the newest checkpoints of a pool that had pruned its oldest, and
+    // TreeTruncation::ResetToSubtreeRoots empties a pool), so there the per-scan clause, clause (2)
+    // (no checkpoint at an unscanned height, hence none above a rewind) and clause (3) (the retained
+    // grid, in every pool) carry the property.
+    if m.rewinds == 0 {
+        let floor = pruning_floor(w, &cp_sets);
+        if floor > 0 {
+            outcomes.push("checkpoints:pool-at-capacity".into());
         }
-    }
-    let window = |s: &BTreeSet<u32>| s.range(floor..).copied().collect::<BTreeSet<u32>>();
-    // A rewind below every checkpoint a pool retains resets that pool's tree to its completed subtree
-    // roots (TreeTruncation::ResetToSubtreeRoots, documented in wallet.rs): it then holds no checkpoint
-    // at all until the next scan re-creates them, and is left out of the comparison.
-    let live: Vec<&BTreeSet<u32>> = cp_sets.iter().filter(|s| !(m.rewinds > 0 && s.is_empty())).collect();
-    if live.len() < 3 {
+        let window = |s: &BTreeSet<u32>| s.range(floor..).copied().collect::<BTreeSet<u32>>();
+        if window(&cp_sets[0]) != window(&cp_sets[1]) || window(&cp_sets[1]) != window(&cp_sets[2]) {
+            let sym = |a: &BTreeSet<u32>, b: &BTreeSet<u32>| window(a).symmetric_difference(&window(b)).copied().take(4).collect::<Vec<_>>();
+            return Err(format!(
+                "pools are checkpointed at different heights (compared from height {floor} up): sapling^orchard={:?} orchard^ironwood={:?}; scanned={:?}",
+                sym(&cp_sets[0], &cp_sets[1]),
+                sym(&cp_sets[1], &cp_sets[2]),
+                m.scanned
+            ));
+        }
+    } else if cp_sets.iter().any(|s| s.is_empty()) {
         outcomes.push("checkpoints:pool-reset-by-rewind".into());
-    }
-    if live.windows(2).any(|p| window(p[0]) != window(p[1])) {
-        let sym = |a: &BTreeSet<u32>, b: &BTreeSet<u32>| window(a).symmetric_difference(&window(b)).copied().take(4).collect::<Vec<_>>();
-        return Err(format!(
-            "pools are checkpointed at different heights (compared from height {floor} up): sapling^orchard={:?} orchard^ironwood={:?}; scanned={:?}",
-            sym(&cp_sets[0], &cp_sets[1]),
-            sym(&cp_sets[1], &cp_sets[2]),
-            m.scanned
-        ));
     }
     // (2) no checkpoint at a height the wallet has not scanned on the current chain (genesis excepted)
     let all_ids: BTreeSet<u32> = cp_sets.iter().flatten().copied().collect();
